@@ -32,7 +32,8 @@ def _verify_one(task):
         if spec.get("cross_check", True):
             try:
                 n = spec.get("cross_check_n", 40) * (25 if spec.get("_tier") == "thorough" else 1)
-                cc = native.cross_check(spec, n=n, seed=spec.get("_seed", 0), max_tries=100 * n)
+                cc = native.cross_check(spec, n=n, seed=spec.get("_seed", 0), max_tries=100 * n,
+                                        max_seconds=20 if spec.get("_tier") != "thorough" else 90)
             except Exception:  # noqa: BLE001
                 cc = dict(evaluated=0, failures=[], skipped=traceback.format_exc()[-600:])
         return dict(key=key, ci=ci, cross_check=cc, obligations=[], error=None, trusted=[], inlined=[], used_contracts=[],
@@ -84,11 +85,9 @@ def run_property(prop, specs, tier="quick", seed=0, registry=None, extra_assumpt
         s.setdefault("prop", prop)
         s["_seed"] = seed
         s["_tier"] = tier
-        if tier == "thorough" and not s.get("_thorough_budget_applied"):
-            # thorough tier: three times the solver budget per obligation (undecided obligations get a longer look) and 25
-            # times the native cross-check samples
-            s["z3_timeout_ms"] = 3 * int(s.get("z3_timeout_ms") or 20000)
-            s["_thorough_budget_applied"] = True
+        # thorough tier: undecided obligations get a longer second look (serial retry with 6x instead of 3x the budget, unless
+        # the contract opted out of retries) and the native cross-check draws 25 times the samples (time-capped)
+        s["_retry_factor"] = 6 if tier == "thorough" else 3
     _WORK["specs"], _WORK["registry"] = specs, registry  # inherited by fork (specs may hold lambdas)
     from .contracts import configurations
 
